@@ -517,6 +517,11 @@ class DatasetProcessor:
 
         self.process_assigned_reads(sample, saves_file)
         if not self.args.read_assignments and not self.args.keep_tmp:
+            # remove all locks first, otherwise an interrupted clean-up leaves locks without the data they guard
+            for lock_file in [saves_file + "_lock", read_group_lock_filename(sample)]:
+                if os.path.exists(lock_file):
+                    os.remove(lock_file)
+            clean_locks(self.get_chr_list(), saves_file, reads_collected_lock_file_name)
             for f in glob.glob(saves_file + "_*"):
                 os.remove(f)
             for f in glob.glob(sample.read_group_file + "*"):
